@@ -1,8 +1,10 @@
 #!/usr/bin/env python3
-"""Thorough tier: quick obligations on the host target, again on GOARCH=386 (width-dependent reasoning),
-then the property's mutant/variant corpus replayed on scratch copies of the current tree.
-The corpus validates the checker (a surviving mutant is SELFTEST-WEAK, not a violation)."""
-import json, os, subprocess, sys, time, tempfile, shutil
+"""Thorough tier: the property's obligations with the who-may-call / reachability rules re-evaluated on the more conservative
+class-hierarchy call graph as well (dirkcheck -tier thorough), then the property's mutant / variant / seeded corpus replayed on
+scratch copies of the current tree. The corpus validates the checker: a surviving mutant or a false alarm on a variant is reported
+as SELFTEST-WEAK in the output and recorded in the evidence file without changing the exit status (it is a weakness of the
+checker, not a violation of the property)."""
+import json, os, subprocess, sys, time, tempfile
 
 VERIF = os.path.dirname(os.path.dirname(os.path.abspath(__file__)))
 REPO = os.environ.get('REPO', '/repo')
@@ -11,36 +13,10 @@ t0 = time.time()
 BIN = os.path.join(VERIF, 'bin', 'dirkcheck')
 evdir = os.path.join(VERIF, 'evidence')
 known = os.path.join(VERIF, 'known-findings.txt')
-out = []
-rc = 0
-# 1. 386 target into a scratch evidence dir
-tmp = tempfile.mkdtemp(prefix='dirk386.')
-try:
-    p = subprocess.run([BIN, '-property', prop, '-tier', 'thorough', '-repo', REPO, '-out', tmp, '-known', known, '-goarch', '386'], capture_output=True, text=True)
-    sys.stdout.write(''.join(l + '\n' for l in p.stdout.splitlines() if not l.startswith('VIOLATION')))
-    ev386 = None
-    try:
-        ev386 = json.load(open(os.path.join(tmp, prop + '.json')))
-    except Exception:
-        pass
-    rc386 = p.returncode
-    replays386 = []
-    if rc386 != 0:
-        os.makedirs(os.path.join(evdir, 'replay'), exist_ok=True)
-        rp = os.path.join(tmp, 'replay')
-        if os.path.isdir(rp):
-            for f in sorted(os.listdir(rp)):
-                dst = os.path.join(evdir, 'replay', '386-' + f)
-                shutil.copy(os.path.join(rp, f), dst)
-                replays386.append(dst)
-finally:
-    shutil.rmtree(tmp, ignore_errors=True)
-# 2. host target (authoritative evidence file)
 p = subprocess.run([BIN, '-property', prop, '-tier', 'thorough', '-repo', REPO, '-out', evdir, '-known', known], capture_output=True, text=True)
 sys.stdout.write(p.stdout)
 sys.stderr.write(p.stderr)
 rc = p.returncode
-# 3. corpus
 cj = tempfile.mktemp(prefix='corpus.', suffix='.json')
 c = subprocess.run([sys.executable, os.path.join(VERIF, 'tools', 'corpus.py'), '--kind', 'all', '--property', prop, '-j', os.environ.get('CORPUS_JOBS', '6'), '--json', cj], capture_output=True, text=True)
 sys.stdout.write(c.stdout)
@@ -50,23 +26,14 @@ try:
     os.remove(cj)
 except Exception:
     pass
-# merge into evidence
 evf = os.path.join(evdir, prop + '.json')
 try:
     ev = json.load(open(evf))
     cov = ev['coverage']
-    cov['targets'] = ['amd64', '386']
-    cov['target_386'] = {'exit': rc386, 'obligations': (ev386 or {}).get('coverage', {}).get('obligations'), 'discharged': (ev386 or {}).get('coverage', {}).get('discharged')}
     cov['corpus'] = {k: v for k, v in corpus.items() if k != 'results'}
     cov['corpus_results'] = [{k: r.get(k) for k in ('kind', 'patch', 'status', 'expect', 'violated')} for r in corpus.get('results', [])]
     ev['wall_s'] = round(time.time() - t0, 1)
-    if rc386 != 0:
-        ev['violations'] = ev.get('violations', 0) + len(replays386)
     json.dump(ev, open(evf, 'w'), indent=1)
 except Exception as e:
-    print('could not merge thorough results into evidence:', e)
-if rc386 != 0:
-    for r in replays386:
-        print(f'VIOLATION property={prop} replay={r}')
-    rc = 1
+    print('could not merge corpus results into evidence:', e)
 sys.exit(rc)
